@@ -2,7 +2,7 @@
 (* Validation of recorded executions of Valid, SkipValue, SkipValueFast      *)
 (* (and json.Valid / the stdlib streaming decoder as a second implementation)*)
 (* against the grammar machine.  C01, C02, C11; C10 and C16 for these calls. *)
-EXTENDS JSONMachine, TraceCore
+EXTENDS FastSkip, TraceCore
 
 VARIABLE l
 \* the variables of JSONMachine are not used by the trace spec
@@ -28,18 +28,33 @@ Clauses(r, d, o) ==
             /\ (o[12] = 1 => (o[13] >= 0 /\ o[13] <= n)) /\ (o[14] = 1 => (o[15] >= 0 /\ o[15] <= n)),
             "C10", "offset_out_of_range")
 
+\* Conformance of the implementation-shaped model of SkipValueFast (FastSkip.tla) with the real
+\* function on *every* input, malformed ones included.  A difference is reported as a
+\* CONFORMANCE-NOTE, never as a violation: the property (C11) constrains well-formed input only.
+\* Enabled with the environment variable CONFORMANCE=1 (the thorough tier of C11).
+Conformance == "CONFORMANCE" \in DOMAIN IOEnv /\ IOEnv.CONFORMANCE = "1"
+FastNotes(fs, o) ==
+  IF ~Conformance THEN {}
+  ELSE LET g == FastAtEOF(fs)
+           okI == IF g.out = "done" THEN 1 ELSE 0
+       IN F(o[12] = okI /\ (okI = 1 => o[13] = g.end) /\ o[14] = okI /\ (okI = 1 => o[15] = g.end),
+            "NOTE", "SkipValueFast_differs_from_FastSkip_model")
+
 Obs(row) == SubSeq(row, 3, Len(row))
 
+FastFrom(f, bytes) == FoldLeft(FastStep, f, bytes)
 CheckSweep(e) ==
-  LET cp == RunFrom(InitCfg, e.pre) IN
+  LET cp == RunFrom(InitCfg, e.pre)
+      fp == IF Conformance THEN FastFrom(FastInit, e.pre) ELSE FastInit IN
   \A i \in 1..Len(e.rows) :
      LET row == e.rows[i]
          suf == e.sufs[row[2] + 1]
          r   == AtEOF(RunFrom(Step(cp, row[1]), suf))
          d   == e.pre \o <<row[1]>> \o suf
-     IN Report(l, i, Clauses(r, d, Obs(row)))
+     IN Report(l, i, Clauses(r, d, Obs(row)) \cup FastNotes(FastFrom(FastStep(fp, row[1]), suf), Obs(row)))
 
-CheckDoc(e) == LET d == Input(e) IN Report(l, 0, Clauses(Run(d), d, e.o))
+CheckDoc(e) == LET d == Input(e) IN
+  Report(l, 0, Clauses(Run(d), d, e.o) \cup FastNotes(FastFrom(FastInit, d), e.o))
 
 TraceNext ==
   /\ l <= Len(Trace)
